@@ -180,26 +180,79 @@ def rule_set_identity(prog):
 
 def rule_idle_reset(prog):
     """R-VK-IDLE-RESET: on-idle measures the time since the last input event of any kind: handle_input_event sets
-    ticks_since_idle to 0 on every path, not only for some event values."""
-    from kq.core import is_const, const_val, proj_fields
-    res = RuleResult("R-VK-IDLE-RESET", "every input event restarts the idle time", floor=1)
+    ticks_since_idle to 0 on every path, for every event value. The only bypass allowed is the one taken when the
+    event is the WakeUp pseudo-event (sent after TCP client messages; it is not input): an edge out of a comparison of
+    event.value with the constant KeyValue::WakeUp, on the "is WakeUp" outcome."""
+    from kq.core import is_const, const_val, proj_fields, callee_name, is_place
+    from kq.analysis import _promoted_variant
+    res = RuleResult("R-VK-IDLE-RESET", "every input event (other than the wake-up pseudo-event) restarts the idle time", floor=1)
     f = prog.fn("kanata_state_machine::kanata::Kanata::handle_input_event")
     res.fn(f)
     K = "kanata_state_machine::kanata::Kanata"
+    KV = "kanata_state_machine::oskbd::KeyValue"
     stores = []
     for bi, si, st in f.all_rvalues():
         pf = proj_fields(st["p"])
         if pf and pf[-1][0] == K and pf[-1][2] == "ticks_since_idle" and st["rv"]["k"] == "use" and is_const(st["rv"]["a"]) and const_val(st["rv"]["a"]) == 0:
             stores.append(bi)
-    reach = f.reach_from(0, avoid=stores)
+    # edges taken only when event.value == WakeUp
+    allowed = set()
+    for bi, t in f.calls():
+        cn = (callee_name(t) or "").split("::")[-1]
+        if cn not in ("ne", "eq") or len(t["args"]) != 2:
+            continue
+        var = None
+        for a in t["args"]:
+            cur, hops = a, 0
+            while isinstance(cur, dict) and hops < 6:
+                v = _promoted_variant(f, cur, KV)
+                if v is not None:
+                    var = var or v
+                    break
+                if not is_place(cur):
+                    break
+                d = f.single_def(cur["l"])
+                if d and d[2] == "assign" and d[3]["k"] == "ref":
+                    cur = {"l": d[3]["p"]["l"]}
+                elif d and d[2] == "assign" and d[3]["k"] == "use":
+                    cur = d[3]["a"]
+                else:
+                    break
+                hops += 1
+        if var != "WakeUp":
+            continue
+        sb = t.get("t")
+        if sb is None:
+            continue
+        tt = f.term(sb)
+        if tt["k"] != "switch" or not is_place(tt["d"]) or tt["d"]["l"] != t["dest"]["l"]:
+            continue
+        # ne() == false  <=>  equal to WakeUp ; eq() == true <=> equal
+        if cn == "ne":
+            tgt = [tb for v, tb in tt["ts"] if v == 0]
+        else:
+            tgt = [tt["o"]] if any(v == 0 for v, _ in tt["ts"]) else [tb for v, tb in tt["ts"] if v == 1]
+        for tb in tgt:
+            allowed.add((sb, tb))
+    seen, work = set(), [0]
+    while work:
+        b = work.pop()
+        if b in seen or b in stores:
+            continue
+        seen.add(b)
+        for s_ in f.succs(b):
+            if (b, s_) in allowed:
+                continue
+            work.append(s_)
     rets = [b for b in f.reachable() if f.term(b)["k"] == "return"]
-    ok = bool(stores) and (0 in stores or not any(r in reach for r in rets))
-    res.inst("reset-on-every-path", stores=len(stores), ok=ok)
+    ok = bool(stores) and (0 in stores or not any(r in seen for r in rets))
+    res.inst("reset-on-every-path", stores=len(stores), wakeup_bypass_edges=len(allowed), ok=ok)
     res.oblige(ok)
     if not ok:
         res.viol("reset-on-every-path", f.loc,
-                 "handle_input_event can return without resetting ticks_since_idle: some input events (e.g. releases) do not count as "
-                 "activity, so an on-idle action fires before the stated idle time has passed since the last event")
+                 "handle_input_event can return without resetting ticks_since_idle for an event that is not the WakeUp pseudo-event: some "
+                 "input events (e.g. releases, OS repeats) do not count as activity, so an on-idle action fires before the stated idle "
+                 "time has passed since the last event")
     return res
 
 
